@@ -822,6 +822,20 @@ var rR11 = RuleRef{Name: "R11", Doc: "fragmentation independence, structural par
 			for _, in := range b.Instrs {
 				if isErrSend(in) || errHandOff(in) {
 					nSend++
+				} else if snd, ok := in.(*ssa.Send); ok {
+					// a report whose error travels in a record (line.err behind a test of line.kind): it is looked at by
+					// the flow above only when the error is visibly non-nil, but it shows that the anchors are still there
+					if al, ok := snd.X.(*ssa.Alloc); ok && al.Referrers() != nil {
+						for _, r := range *al.Referrers() {
+							if fa, ok := r.(*ssa.FieldAddr); ok && fieldName(fa) == "Err" && fa.Referrers() != nil {
+								for _, rr := range *fa.Referrers() {
+									if st, ok := rr.(*ssa.Store); ok && !isNilConst(st.Val) {
+										nSend++
+									}
+								}
+							}
+						}
+					}
 				}
 			}
 		}
@@ -895,12 +909,57 @@ var rR12s = RuleRef{Name: "R12s", Doc: "sibling agreement on the WAL error proto
 				}
 			}
 		}
-		if tests && (fn == nil || f.String() < fn.String()) {
+		if !tests {
+			continue
+		}
+		// of two functions that both look at the error (a reader that closes the WAL on failure, and the replay that
+		// calls it), the caller decides what happens next
+		better := fn == nil
+		if fn != nil {
+			switch {
+			case callsTransitively(f, fn, 0) && !callsTransitively(fn, f, 0):
+				better = true
+			case callsTransitively(fn, f, 0) && !callsTransitively(f, fn, 0):
+				better = false
+			default:
+				better = f.String() < fn.String()
+			}
+		}
+		if better {
 			fn = f
 		}
 	}
+	if fn == nil {
+		c.Undecided("R12s", "the function of package raftexample that tests the error of the WAL read at start-up")
+		return
+	}
 	var repair, readAll ssa.Instruction
 	cmpEOF := false
+	// helpers of the deciding function that do not read the WAL themselves (a repair step handed the error)
+	mentions := func(h *ssa.Function) (repairs, cmp bool) {
+		for _, g := range helperScope(h, 2) {
+			if pkgRel(g) != "raftexample" || readers[g] {
+				continue
+			}
+			for _, b := range g.Blocks {
+				for _, in := range b.Instrs {
+					if ci, ok := in.(ssa.CallInstruction); ok && callName(ci) == "Repair" {
+						repairs = true
+					}
+					if bo, ok := in.(*ssa.BinOp); ok && (bo.Op == token.EQL || bo.Op == token.NEQ) {
+						for _, side := range []ssa.Value{bo.X, bo.Y} {
+							if u, ok := side.(*ssa.UnOp); ok {
+								if g, ok := u.X.(*ssa.Global); ok && g.Name() == "ErrUnexpectedEOF" {
+									cmp = true
+								}
+							}
+						}
+					}
+				}
+			}
+		}
+		return
+	}
 	for _, b := range fn.Blocks {
 		for _, in := range b.Instrs {
 			if ci, ok := in.(ssa.CallInstruction); ok {
@@ -909,6 +968,12 @@ var rR12s = RuleRef{Name: "R12s", Doc: "sibling agreement on the WAL error proto
 				}
 				if readsWAL(ci) {
 					readAll = in
+				} else if cf := callee(ci); cf != nil && firstParty(cf) && pkgRel(cf) == "raftexample" && cf != fn {
+					r, cm := mentions(cf)
+					if r && repair == nil {
+						repair = in
+					}
+					cmpEOF = cmpEOF || cm
 				}
 			}
 			if bo, ok := in.(*ssa.BinOp); ok && (bo.Op == token.EQL || bo.Op == token.NEQ) {
@@ -1048,7 +1113,16 @@ var rR23s = RuleRef{Name: "R23s", Doc: "per-connection selection: no code reacha
 				dbArg = a
 			}
 		}
-		good := dbArg != nil && strings.HasSuffix(canon(dbArg), ".db") && !strings.HasPrefix(canon(dbArg), "recv.")
+		dbName := ""
+		if dbArg != nil {
+			dbName = canon(dbArg)
+			if call, ok := dbArg.(*ssa.Call); ok && len(call.Call.Args) == 1 {
+				if f, isG := thinGetter(callee(call)); isG {
+					dbName = canon(call.Call.Args[0]) + "." + f // st.selected() reads st.db
+				}
+			}
+		}
+		good := dbArg != nil && strings.HasSuffix(dbName, ".db") && !strings.HasPrefix(dbName, "recv.")
 		c.Add("R23s", fnName(d.Parent()), "the executor runs against the database selected by the calling connection", d.Pos(), good, "database operand: "+func() string {
 			if dbArg == nil {
 				return "none"
@@ -1591,6 +1665,17 @@ var rR1t = RuleRef{Name: "R1t", Doc: "termination of the glob matcher: every cyc
 			if v == ssa.Value(f.Params[pi]) {
 				return true, strict
 			}
+			// a library call that returns a suffix of its first argument (leading characters trimmed)
+			if call, isCall := v.(*ssa.Call); isCall {
+				if cf := call.Call.StaticCallee(); cf != nil && cf.Pkg != nil && (cf.Pkg.Pkg.Path() == "strings" || cf.Pkg.Pkg.Path() == "bytes") && len(call.Call.Args) >= 1 {
+					switch cf.Name() {
+					case "TrimLeft", "TrimPrefix", "TrimLeftFunc":
+						v = call.Call.Args[0]
+						continue
+					}
+				}
+				return false, false
+			}
 			sl, isSl := v.(*ssa.Slice)
 			if !isSl || sl.High != nil {
 				return false, false
@@ -1785,6 +1870,15 @@ func comparedStrings(fns []*ssa.Function, out map[string]bool) {
 					for _, side := range []ssa.Value{bo.X, bo.Y} {
 						if s, ok := constString(side); ok {
 							out[s] = true
+						}
+					}
+				}
+				if call, ok := in.(*ssa.Call); ok {
+					if cf := call.Call.StaticCallee(); cf != nil && cf.Pkg != nil && cf.Pkg.Pkg.Path() == "strings" && cf.Name() == "EqualFold" {
+						for _, a := range call.Call.Args {
+							if s, ok := constString(a); ok {
+								out[s] = true
+							}
 						}
 					}
 				}
